@@ -2,7 +2,7 @@ import PlzVerif.Model.GC
 import PlzVerif.Lemmas.Cycle
 /-!
 Lemmas for C25: the keep set of `targetsToRemove` contains every root and is closed under dependencies;
-nothing in it is proposed for removal (when no `gc_sibling` label redirects the test), and no source file of a
+nothing in it is proposed for removal, and no source file of a
 kept target is proposed for deletion.  Core Lean only.
 -/
 namespace PlzVerif.GC
@@ -292,10 +292,9 @@ theorem keepSet_reach (G : Graph) (Q : Query) (h : (keepSet G Q).oof = false) (r
 
 /-! ### what is proposed for removal -/
 
-theorem removable_not_kept {G : Graph} {Q : Query} {keep : List Nat} {t : Nat} (hs : G.sibs t = [])
+theorem removable_not_kept {G : Graph} {Q : Query} {keep : List Nat} {t : Nat}
     (h : removable G Q keep t = true) : t ∉ keep := by
-  unfold removable gcSibling at h
-  rw [hs] at h
+  unfold removable at h
   simp only [Bool.and_eq_true, Bool.not_eq_true', List.contains_eq_mem, decide_eq_false_iff_not] at h
   exact h.1.2
 
